@@ -9,6 +9,6 @@ CONSTANTS
   Cnt <- CntQuick
   NCnt <- NCntQuick
   Obs <- ObsEmit
-INVARIANTS TypeOK QueriesInRange CmpLaw SpliceLaw SubLaw HugeLaw ShapeLaw
+INVARIANTS TypeOK QueriesInRange CmpLaw SpliceLaw SubLaw HugeLaw GapLaw ShapeLaw
 PROPERTY Independence
 CHECK_DEADLOCK FALSE
